@@ -322,6 +322,28 @@ def fork_run(spec, workdir):
     return code, res
 
 
+def subprocess_run(spec, workdir):
+    """As fork_run, but in a fresh /venv/bin/python interpreter (PYTHONPATH = framework + repo)."""
+    import subprocess
+
+    from ..common import REPO, VERIF
+
+    specpath = os.path.join(workdir, "spec.json")
+    outpath = os.path.join(workdir, "out_sub.json")
+    with open(specpath, "w") as f:
+        json.dump(spec, f)
+    env = dict(os.environ, PYTHONPATH=f"{VERIF}{os.pathsep}{REPO}", PYTHONHASHSEED="0", PYTHONDONTWRITEBYTECODE="1")
+    code = subprocess.run([sys.executable, "-m", "harness.props.c05", "--child", specpath, outpath, str(REPO)],
+                          env=env, cwd=str(VERIF), timeout=120, stdout=subprocess.DEVNULL,
+                          stderr=subprocess.DEVNULL).returncode
+    res = None
+    if os.path.exists(outpath):
+        with open(outpath) as f:
+            res = json.load(f)
+        os.unlink(outpath)
+    return code, res
+
+
 def read_log(path):
     if not os.path.exists(path):
         return []
@@ -405,7 +427,8 @@ def run_crash(c):
             fork_run(w.spec(c, False, crash_at=c["k2"]), w.dir)
             before += w.take_log()
         lst = folder_listing(w.folder) if os.path.isdir(w.folder) else []
-        _, r = fork_run(w.spec(c, False), w.dir)
+        runner = subprocess_run if c.get("fresh") else fork_run   # the final resume in a fresh interpreter
+        _, r = runner(w.spec(c, False), w.dir)
         return [lst, _outcome(r), sorted(before), sorted(w.take_log())]
 
 
@@ -462,7 +485,7 @@ def crash_cases(rng, req, old, every, max_pairs, with_fail=True):
         ks = sorted(rng.sample(ks, min(len(ks), every_n(len(ks)))))
     for k in ks:
         out.append({"kind": "crash", "req": req, "old": old, "fail": None, "k1": k, "k2": None,
-                    "half": rng.random() < 0.7, "tag": _tag(ev1, k)})
+                    "half": rng.random() < 0.7, "tag": _tag(ev1, k), "fresh": rng.random() < 0.04})
     # a second crash during the resume
     for _ in range(max_pairs):
         k1 = rng.randrange(len(ev1) + 1)
@@ -525,7 +548,8 @@ def nontrivial_key(c):
 
 
 def distribution(c):
-    return {"kind": c["kind"], "storage": c["req"].get("storage"), "old": bool(c.get("old")), "tag": c.get("tag")}
+    return {"kind": c["kind"], "storage": c["req"].get("storage"), "old": bool(c.get("old")), "tag": c.get("tag"),
+            "resume_in_fresh_interpreter": bool(c.get("fresh"))}
 
 
 def finding_id(c, impl_obs, kind):
@@ -534,3 +558,12 @@ def finding_id(c, impl_obs, kind):
 
 def shrink(c):
     return []
+
+
+if __name__ == "__main__":  # fresh-interpreter child:  python -m harness.props.c05 --child spec.json out.json <repo>
+    if len(sys.argv) == 5 and sys.argv[1] == "--child":
+        sys.modules["zarr"] = None
+        sys.path.insert(0, sys.argv[4])
+        with open(sys.argv[2]) as _f:
+            _spec = json.load(_f)
+        child_run(_spec, sys.argv[3])
